@@ -91,6 +91,47 @@ def check_ro_functions(spec, names, exp, me, bases):
     return None
 
 
+class _Plain:
+    """Anything with ``__bases__`` can be linearized by ro.ro()."""
+
+    def __init__(self, n, bases):
+        self.n = n
+        self.__bases__ = tuple(bases)
+
+    def __repr__(self):
+        return 'N%s' % self.n
+
+
+def strict_env_overrides(dag, i, bases):
+    root = _Plain('R', ())
+    N = []
+    for j in range(i + 1):
+        N.append(_Plain(j, [N[b] for b in dag[j]] or [root]))
+    nm = {id(x): x.n for x in N}
+    nm[id(root)] = 'R'
+    try:
+        ic = ro.is_consistent(N[i])
+    except ro.InconsistentResolutionOrderError:
+        return ('is_consistent-raises-under-strict-env', i)
+    if ic is not False:
+        return ('is_consistent', i, ic)
+    try:
+        r = [nm.get(id(x), '?') for x in ro.ro(N[i], strict=False)]
+    except ro.InconsistentResolutionOrderError:
+        return ('explicit-strict=False-does-not-override-strict-env', i)
+    if not gen.linearization_ok(r, i, bases, 'R'):
+        return ('ro.ro(strict=False)-not-a-linearization', i, r)
+    try:
+        ro.ro(N[i])
+        return ('strict-env-ignored-by-ro.ro', i)
+    except ro.InconsistentResolutionOrderError:
+        pass
+    for j in range(i):
+        if ro.is_consistent(N[j]) is not True:
+            return ('is_consistent', j, False)
+    return None
+
+
 def eval_dag(dag):
     """Build the DAG as interfaces and check every node. Returns
     (violation or None, number of nodes without C3)."""
@@ -116,7 +157,11 @@ def eval_dag(dag):
                                {'__module__': wmod()})
         except ro.InconsistentResolutionOrderError:
             if MODE == 'strict' and exps[i] is None:
-                return None, incons + 1      # correct refusal; the DAG ends here
+                # correct refusal; the DAG ends here.  The explicit arguments
+                # still override the environment switch: on a mirror of the
+                # DAG made of plain objects, is_consistent answers False and
+                # strict=False linearizes instead of raising
+                return strict_env_overrides(dag, i, bases), incons + 1
             return ('construction-raised-although-C3-exists', i), incons
         if MODE == 'strict' and exps[i] is None:
             return ('strict-env-accepted-inconsistent-node', i), incons
